@@ -27,7 +27,7 @@ CHECKS = {
   "technique": "TLA+ session specification (SessionTrace) validated by TLC on recorded histories of range / instant / sub-window executions + TLC model checking of Volcano.tla",
  },
  "C18": {
-  "text": "Design level: Volcano.tla model-checked (contract and alignment on every edge). Implementation level: hook H1 wraps every operator of every physical plan (reflection over operator fields, so new operator kinds are covered); plans for the scenarios of all generators run in four modes (passive, Series-first, extra Next after end, seeded yields); TLC validates clauses S1-S8 of StreamTrace.tla on every Series/Next event and the agreement of the modes' results.",
+  "text": "Design level: Volcano.tla model-checked (contract and alignment on every edge). Implementation level: hook H1 wraps every operator of every physical plan (reflection over operator fields, so new operator kinds are covered); plans for the scenarios of all generators run in four modes (passive, Series-first, extra Next after end, seeded yields); TLC validates clauses S1-S9 of StreamTrace.tla on every Series/Next event and the agreement of the modes' results.",
   "design_ref": "DESIGN.md §3.4, §6 C18",
   "note": "Trusted: the recording wrapper (harness/optrace), sequence numbers from one atomic counter; an empty batch is admitted by S3 (nothing delivered); perturbation is seeded yields, not exhaustive scheduling.",
   "technique": "trace validation by TLC of operator-boundary events (hook H1) against StreamTrace.tla + TLC model checking of Volcano.tla",
